@@ -20,7 +20,9 @@ Main results: `gi_init`, `gi_step`, `gi_reach` (invariant); `lp_result`, `lp_set
 return the spec's answer and advance the ghost abstract state by the spec step); `abs_frame` (no other step
 changes the abstract state); `get_load`, `get_hindsight` (hindsight for the `Get` family); `gd_compute`,
 `de_compute`, `erased_step`, `ledger_only_removed`, `never_removes_live` (callbacks, C06); `no_step_blocks`
-(C13 at cache level); `reach_tstep` (the step-level theorems apply to every step of every run).
+(C13 at cache level); `reach_tstep` (the step-level theorems apply to every step of every run); `fi_reach`,
+`fired_prefix`, `fired_eq_erased_at_ret`, `ledger_fired_coupled` (C06: per call, what fired is exactly what was
+removed, once each, in order).
 -/
 set_option linter.unusedSectionVars false
 set_option linter.unusedVariables false
@@ -1141,5 +1143,454 @@ theorem reach_tstep (dflt : Int) (cb : Option Nat) (now : Int) (h0 : 0 ≤ now) 
         | none => rw [hst] at hab; cases hab
         | some a' => rw [hst] at hab; exact ih a' b hab
     rw [this sched _ s hsched, hs]
+
+/-! ## Exactly once (C06): per call, what fired is exactly what was removed, once each, in order
+
+Ghost local `fired` (appended exactly where the ledger is appended, reset where `erased` is reset).  A second
+per-thread invariant `FI`, purely local (it mentions no global), preserved by the thread's own steps given `LI`
+(`fi_self`), untouched by everybody else's; lifted to all reachable states (`fi_reach`).  Results:
+`fired_prefix`, `gd_fire`, `fired_eq_erased_at_ret`, `gd_erased_at_ret`, `ledger_fired_step`,
+`ledger_fired_coupled`. -/
+
+/-- the calls that remove entries and fire the evicted callback -/
+def isRemoval : COp K V → Bool
+  | .getAndDelete _ | .delete _ | .deleteExpired => true
+  | _ => false
+
+theorem isRemoval_eq (op : COp K V) : isRemoval op = (decide (opCls op = .gd) || decide (opCls op = .de)) := by
+  cases op <;> rfl
+
+/-- `opKey` depends on the call only -/
+def opKeyOf : Option (COp K V) → Option K
+  | some (.set k _ _) | some (.get k) | some (.getWithExpiration k) | some (.getWithTTL k)
+  | some (.getOrSet k _ _) | some (.getAndSet k _ _) | some (.getAndRefresh k _) | some (.getOrCompute k _ _)
+  | some (.compute k _ _) | some (.getAndDelete k) | some (.delete k) => some k
+  | _ => none
+
+theorem opKey_eq_of (l : L K V) : opKey l = opKeyOf l.op := rfl
+
+structure FI (l : L K V) : Prop where
+  hasOp : l.pc ≠ .idle → ∃ op, l.op = some op
+  other : l.pc ≠ .idle → ∀ op, l.op = some op → isRemoval op = false → l.fired = [] ∧ l.erased = []
+  pre : (l.pc = .gdCompute ∨ l.pc = .deReadCb ∨ l.pc = .deReadClock) → l.fired = [] ∧ l.erased = []
+  gdMid : (l.pc = .gdReadCb ∨ l.pc = .gdFire) →
+      l.fired = [] ∧ ∃ k i, opKey l = some k ∧ l.removed = some i ∧ l.erased = [(k, i.v)]
+  pass : dePass l.pc = true →
+      (∀ cb, l.ec = some cb → l.fired ++ l.queue = l.erased) ∧ (l.ec = none → l.fired = [] ∧ l.queue = [])
+  ret : l.pc = .ret → ∀ op, l.op = some op → isRemoval op = true →
+      (∀ cb, l.ec = some cb → l.fired = l.erased) ∧ (l.ec = none → l.fired = [])
+  retGd : l.pc = .ret → ∀ op, l.op = some op → opCls op = .gd →
+      (l.removed = none → l.fired = [] ∧ l.erased = []) ∧
+      (∀ i, l.removed = some i → ∃ k, opKey l = some k ∧ l.erased = [(k, i.v)])
+
+theorem fi_init : FI (L.init : L K V) := by
+  refine ⟨?_, ?_, ?_, ?_, ?_, ?_, ?_⟩ <;> simp [L.init, dePass]
+
+theorem fi_startOp (l : L K V) (op : COp K V) : FI (startOp l op) := by
+  cases op
+  case set k v d =>
+    by_cases hd : d = Gen.DefaultExpiration <;>
+      (refine ⟨?_, ?_, ?_, ?_, ?_, ?_, ?_⟩ <;> simp [startOp, dePass, isRemoval, hd])
+  all_goals (refine ⟨?_, ?_, ?_, ?_, ?_, ?_, ?_⟩ <;> simp [startOp, dePass, isRemoval])
+
+macro "fi_auto " hs:ident : tactic =>
+  `(tactic| ((repeat' split at $hs:ident) <;>
+    simp only [Option.some.injEq, reduceCtorEq, Prod.mk.injEq] at $hs:ident <;>
+    rcases $hs:ident with ⟨hg', hl'⟩ <;> subst hg' <;> subst hl' <;>
+    (refine ⟨?_, ?_, ?_, ?_, ?_, ?_, ?_⟩ <;> simp_all [dePass, isRemoval_eq, opKey_eq_of])))
+
+theorem fi_self_setReadDflt (t : Tid) (g : G K V) (l : L K V) (c : Choice K V) (g' : G K V) (l' : L K V)
+    (hl : LI g.now l) (hf : FI l) (hpc : l.pc = .setReadDflt) (hs : tstep t g l c = some (g', l')) : FI l' := by
+  obtain ⟨op0, ho0, hc0⟩ := hl.cls _ (by rw [hpc]; rfl)
+  obtain ⟨f1, f2, f3, f4, f5, f6, f7⟩ := hf
+  simp only [tstep, hpc] at hs
+  fi_auto hs
+
+theorem fi_self_setReadClock (t : Tid) (g : G K V) (l : L K V) (c : Choice K V) (g' : G K V) (l' : L K V)
+    (hl : LI g.now l) (hf : FI l) (hpc : l.pc = .setReadClock) (hs : tstep t g l c = some (g', l')) : FI l' := by
+  obtain ⟨op0, ho0, hc0⟩ := hl.cls _ (by rw [hpc]; rfl)
+  obtain ⟨f1, f2, f3, f4, f5, f6, f7⟩ := hf
+  simp only [tstep, hpc] at hs
+  fi_auto hs
+
+theorem fi_self_setStore (t : Tid) (g : G K V) (l : L K V) (c : Choice K V) (g' : G K V) (l' : L K V)
+    (hl : LI g.now l) (hf : FI l) (hpc : l.pc = .setStore) (hs : tstep t g l c = some (g', l')) : FI l' := by
+  obtain ⟨op0, ho0, hc0⟩ := hl.cls _ (by rw [hpc]; rfl)
+  obtain ⟨f1, f2, f3, f4, f5, f6, f7⟩ := hf
+  simp only [tstep, hpc] at hs
+  fi_auto hs
+
+theorem fi_self_getLoad (t : Tid) (g : G K V) (l : L K V) (c : Choice K V) (g' : G K V) (l' : L K V)
+    (hl : LI g.now l) (hf : FI l) (hpc : l.pc = .getLoad) (hs : tstep t g l c = some (g', l')) : FI l' := by
+  obtain ⟨op0, ho0, hc0⟩ := hl.cls _ (by rw [hpc]; rfl)
+  obtain ⟨f1, f2, f3, f4, f5, f6, f7⟩ := hf
+  simp only [tstep, hpc] at hs
+  fi_auto hs
+
+theorem fi_self_getChkClock (t : Tid) (g : G K V) (l : L K V) (c : Choice K V) (g' : G K V) (l' : L K V)
+    (hl : LI g.now l) (hf : FI l) (hpc : l.pc = .getChkClock) (hs : tstep t g l c = some (g', l')) : FI l' := by
+  obtain ⟨op0, ho0, hc0⟩ := hl.cls _ (by rw [hpc]; rfl)
+  obtain ⟨f1, f2, f3, f4, f5, f6, f7⟩ := hf
+  simp only [tstep, hpc] at hs
+  fi_auto hs
+
+theorem fi_self_getCompute (t : Tid) (g : G K V) (l : L K V) (c : Choice K V) (g' : G K V) (l' : L K V)
+    (hl : LI g.now l) (hf : FI l) (hpc : l.pc = .getCompute) (hs : tstep t g l c = some (g', l')) : FI l' := by
+  obtain ⟨op0, ho0, hc0⟩ := hl.cls _ (by rw [hpc]; rfl)
+  obtain ⟨f1, f2, f3, f4, f5, f6, f7⟩ := hf
+  simp only [tstep, hpc] at hs
+  fi_auto hs
+
+theorem fi_self_rmw (t : Tid) (g : G K V) (l : L K V) (c : Choice K V) (g' : G K V) (l' : L K V)
+    (hl : LI g.now l) (hf : FI l) (hpc : l.pc = .rmw) (hs : tstep t g l c = some (g', l')) : FI l' := by
+  obtain ⟨op0, ho0, hc0⟩ := hl.cls _ (by rw [hpc]; rfl)
+  obtain ⟨f1, f2, f3, f4, f5, f6, f7⟩ := hf
+  simp only [tstep, hpc] at hs
+  fi_auto hs
+
+theorem fi_self_gdCompute (t : Tid) (g : G K V) (l : L K V) (c : Choice K V) (g' : G K V) (l' : L K V)
+    (hl : LI g.now l) (hf : FI l) (hpc : l.pc = .gdCompute) (hs : tstep t g l c = some (g', l')) : FI l' := by
+  obtain ⟨op0, ho0, hc0⟩ := hl.cls _ (by rw [hpc]; rfl)
+  obtain ⟨f1, f2, f3, f4, f5, f6, f7⟩ := hf
+  simp only [tstep, hpc] at hs
+  fi_auto hs
+
+theorem fi_self_gdReadCb (t : Tid) (g : G K V) (l : L K V) (c : Choice K V) (g' : G K V) (l' : L K V)
+    (hl : LI g.now l) (hf : FI l) (hpc : l.pc = .gdReadCb) (hs : tstep t g l c = some (g', l')) : FI l' := by
+  obtain ⟨op0, ho0, hc0⟩ := hl.cls _ (by rw [hpc]; rfl)
+  obtain ⟨f1, f2, f3, f4, f5, f6, f7⟩ := hf
+  simp only [tstep, hpc] at hs
+  fi_auto hs
+
+theorem fi_self_gdFire (t : Tid) (g : G K V) (l : L K V) (c : Choice K V) (g' : G K V) (l' : L K V)
+    (hl : LI g.now l) (hf : FI l) (hpc : l.pc = .gdFire) (hs : tstep t g l c = some (g', l')) : FI l' := by
+  obtain ⟨op0, ho0, hc0⟩ := hl.cls _ (by rw [hpc]; rfl)
+  obtain ⟨f1, f2, f3, f4, f5, f6, f7⟩ := hf
+  simp only [tstep, hpc] at hs
+  fi_auto hs
+  · rename_i hno
+    intro cb hcb
+    obtain ⟨_, k, hk, i, hi, _⟩ := f4
+    exact absurd hcb (hno k i cb hk hi)
+  · obtain ⟨_, k, hk, i, hi, he⟩ := f4
+    refine ⟨fun h => ?_, fun i' hi' => ?_⟩
+    · rw [hi] at h; cases h
+    · rw [hi] at hi'; cases hi'; exact ⟨k, hk, he⟩
+
+theorem fi_self_deReadCb (t : Tid) (g : G K V) (l : L K V) (c : Choice K V) (g' : G K V) (l' : L K V)
+    (hl : LI g.now l) (hf : FI l) (hpc : l.pc = .deReadCb) (hs : tstep t g l c = some (g', l')) : FI l' := by
+  obtain ⟨op0, ho0, hc0⟩ := hl.cls _ (by rw [hpc]; rfl)
+  obtain ⟨f1, f2, f3, f4, f5, f6, f7⟩ := hf
+  simp only [tstep, hpc] at hs
+  fi_auto hs
+
+theorem fi_self_deReadClock (t : Tid) (g : G K V) (l : L K V) (c : Choice K V) (g' : G K V) (l' : L K V)
+    (hl : LI g.now l) (hf : FI l) (hpc : l.pc = .deReadClock) (hs : tstep t g l c = some (g', l')) : FI l' := by
+  obtain ⟨op0, ho0, hc0⟩ := hl.cls _ (by rw [hpc]; rfl)
+  obtain ⟨f1, f2, f3, f4, f5, f6, f7⟩ := hf
+  simp only [tstep, hpc] at hs
+  fi_auto hs
+
+theorem fi_self_deVisit (t : Tid) (g : G K V) (l : L K V) (c : Choice K V) (g' : G K V) (l' : L K V)
+    (hl : LI g.now l) (hf : FI l) (hpc : l.pc = .deVisit) (hs : tstep t g l c = some (g', l')) : FI l' := by
+  obtain ⟨op0, ho0, hc0⟩ := hl.cls _ (by rw [hpc]; rfl)
+  obtain ⟨f1, f2, f3, f4, f5, f6, f7⟩ := hf
+  simp only [tstep, hpc] at hs
+  fi_auto hs
+
+theorem fi_self_deCompute (t : Tid) (g : G K V) (l : L K V) (c : Choice K V) (g' : G K V) (l' : L K V)
+    (hl : LI g.now l) (hf : FI l) (hpc : l.pc = .deCompute) (hs : tstep t g l c = some (g', l')) : FI l' := by
+  obtain ⟨op0, ho0, hc0⟩ := hl.cls _ (by rw [hpc]; rfl)
+  obtain ⟨f1, f2, f3, f4, f5, f6, f7⟩ := hf
+  simp only [tstep, hpc] at hs
+  fi_auto hs
+  rename_i hec hex
+  refine ⟨fun cb h => ?_, ?_⟩
+  · rw [← f5.1 cb h, List.append_assoc]
+  · intro h; rw [h] at hec; cases hec
+
+theorem fi_self_deFire (t : Tid) (g : G K V) (l : L K V) (c : Choice K V) (g' : G K V) (l' : L K V)
+    (hl : LI g.now l) (hf : FI l) (hpc : l.pc = .deFire) (hs : tstep t g l c = some (g', l')) : FI l' := by
+  obtain ⟨op0, ho0, hc0⟩ := hl.cls _ (by rw [hpc]; rfl)
+  obtain ⟨f1, f2, f3, f4, f5, f6, f7⟩ := hf
+  simp only [tstep, hpc] at hs
+  fi_auto hs
+  rename_i hno
+  intro cb hcb
+  have h := f5.1 cb hcb
+  cases hq : l.queue with
+  | nil => rw [hq, List.append_nil] at h; exact h
+  | cons p rest => exact absurd hcb (hno p.1 p.2 rest cb hq)
+
+theorem fi_self_clClear (t : Tid) (g : G K V) (l : L K V) (c : Choice K V) (g' : G K V) (l' : L K V)
+    (hl : LI g.now l) (hf : FI l) (hpc : l.pc = .clClear) (hs : tstep t g l c = some (g', l')) : FI l' := by
+  obtain ⟨op0, ho0, hc0⟩ := hl.cls _ (by rw [hpc]; rfl)
+  obtain ⟨f1, f2, f3, f4, f5, f6, f7⟩ := hf
+  simp only [tstep, hpc] at hs
+  fi_auto hs
+
+theorem fi_self_cntSize (t : Tid) (g : G K V) (l : L K V) (c : Choice K V) (g' : G K V) (l' : L K V)
+    (hl : LI g.now l) (hf : FI l) (hpc : l.pc = .cntSize) (hs : tstep t g l c = some (g', l')) : FI l' := by
+  obtain ⟨op0, ho0, hc0⟩ := hl.cls _ (by rw [hpc]; rfl)
+  obtain ⟨f1, f2, f3, f4, f5, f6, f7⟩ := hf
+  simp only [tstep, hpc] at hs
+  fi_auto hs
+
+theorem fi_self_sdStore (t : Tid) (g : G K V) (l : L K V) (c : Choice K V) (g' : G K V) (l' : L K V)
+    (hl : LI g.now l) (hf : FI l) (hpc : l.pc = .sdStore) (hs : tstep t g l c = some (g', l')) : FI l' := by
+  obtain ⟨op0, ho0, hc0⟩ := hl.cls _ (by rw [hpc]; rfl)
+  obtain ⟨f1, f2, f3, f4, f5, f6, f7⟩ := hf
+  simp only [tstep, hpc] at hs
+  fi_auto hs
+
+theorem fi_self_scStore (t : Tid) (g : G K V) (l : L K V) (c : Choice K V) (g' : G K V) (l' : L K V)
+    (hl : LI g.now l) (hf : FI l) (hpc : l.pc = .scStore) (hs : tstep t g l c = some (g', l')) : FI l' := by
+  obtain ⟨op0, ho0, hc0⟩ := hl.cls _ (by rw [hpc]; rfl)
+  obtain ⟨f1, f2, f3, f4, f5, f6, f7⟩ := hf
+  simp only [tstep, hpc] at hs
+  fi_auto hs
+
+theorem fi_self_ret (t : Tid) (g : G K V) (l : L K V) (c : Choice K V) (g' : G K V) (l' : L K V)
+    (hl : LI g.now l) (hf : FI l) (hpc : l.pc = .ret) (hs : tstep t g l c = some (g', l')) : FI l' := by
+  obtain ⟨f1, f2, f3, f4, f5, f6, f7⟩ := hf
+  simp only [tstep, hpc] at hs
+  fi_auto hs
+
+theorem fi_self (t : Tid) (g : G K V) (l : L K V) (c : Choice K V) (g' : G K V) (l' : L K V)
+    (hl : LI g.now l) (hf : FI l) (hs : tstep t g l c = some (g', l')) : FI l' := by
+  cases hpc : l.pc
+  case idle =>
+    simp only [tstep, hpc] at hs
+    split at hs
+    · simp only [Option.some.injEq, Prod.mk.injEq] at hs
+      obtain ⟨rfl, rfl⟩ := hs
+      exact fi_startOp _ _
+    · cases hs
+  case setReadDflt => exact fi_self_setReadDflt t g l c g' l' hl hf hpc hs
+  case setReadClock => exact fi_self_setReadClock t g l c g' l' hl hf hpc hs
+  case setStore => exact fi_self_setStore t g l c g' l' hl hf hpc hs
+  case getLoad => exact fi_self_getLoad t g l c g' l' hl hf hpc hs
+  case getChkClock => exact fi_self_getChkClock t g l c g' l' hl hf hpc hs
+  case getCompute => exact fi_self_getCompute t g l c g' l' hl hf hpc hs
+  case rmw => exact fi_self_rmw t g l c g' l' hl hf hpc hs
+  case gdCompute => exact fi_self_gdCompute t g l c g' l' hl hf hpc hs
+  case gdReadCb => exact fi_self_gdReadCb t g l c g' l' hl hf hpc hs
+  case gdFire => exact fi_self_gdFire t g l c g' l' hl hf hpc hs
+  case deReadCb => exact fi_self_deReadCb t g l c g' l' hl hf hpc hs
+  case deReadClock => exact fi_self_deReadClock t g l c g' l' hl hf hpc hs
+  case deVisit => exact fi_self_deVisit t g l c g' l' hl hf hpc hs
+  case deCompute => exact fi_self_deCompute t g l c g' l' hl hf hpc hs
+  case deFire => exact fi_self_deFire t g l c g' l' hl hf hpc hs
+  case clClear => exact fi_self_clClear t g l c g' l' hl hf hpc hs
+  case cntSize => exact fi_self_cntSize t g l c g' l' hl hf hpc hs
+  case sdStore => exact fi_self_sdStore t g l c g' l' hl hf hpc hs
+  case scStore => exact fi_self_scStore t g l c g' l' hl hf hpc hs
+  case ret => exact fi_self_ret t g l c g' l' hl hf hpc hs
+
+/-- `FI` for every thread is preserved by every global step (the locals are private: another thread's step and a
+clock tick leave them alone) -/
+theorem fi_step (s s' : St K V) (w : Option Tid) (c : Choice K V) (δ : Nat) (h : Inv s) (hf : ∀ u, FI (s.l u))
+    (hs : step s w c δ = some s') : ∀ u, FI (s'.l u) := by
+  unfold step at hs
+  cases w with
+  | none =>
+    simp only [Option.some.injEq] at hs; subst hs
+    exact hf
+  | some t =>
+    simp only at hs
+    split at hs
+    · cases hs
+    · rename_i g' l' heq
+      simp only [Option.some.injEq] at hs; subst hs
+      intro u
+      by_cases hu : u = t
+      · subst hu
+        simpa using fi_self u s.g (s.l u) c g' l' (h.2 u) (hf u) heq
+      · simpa [hu] using hf u
+
+theorem fi_run (sched : List (Option Tid × Choice K V × Nat)) :
+    ∀ (s s' : St K V), Inv s → (∀ u, FI (s.l u)) → run s sched = some s' → ∀ u, FI (s'.l u) := by
+  induction sched with
+  | nil => intro s s' h hf hr; simp only [run, Option.some.injEq] at hr; subst hr; exact hf
+  | cons x rest ih =>
+    obtain ⟨w, c, δ⟩ := x
+    intro s s' h hf hr
+    simp only [run] at hr
+    split at hr
+    · rename_i s1 hs1
+      exact ih s1 s' (inv_step s s1 w c δ h hs1) (fi_step s s1 w c δ h hf hs1) hr
+    · cases hr
+
+/-- the firing invariant holds for every thread of every reachable state -/
+theorem fi_reach (dflt : Int) (cb : Option Nat) (now : Int) (s : St K V) (h0 : 0 ≤ now)
+    (hr : Reach dflt cb now s) (t : Tid) : FI (s.l t) := by
+  obtain ⟨sched, hs⟩ := hr
+  exact fi_run sched _ s (inv_init dflt cb now h0) (fun _ => fi_init) hs t
+
+/-- **During a call, what has fired so far is a prefix of what was removed** (every reachable state, every
+thread).  `GetAndDelete`/`Delete`: nothing has fired up to and including `gdFire`'s pre-state, and from
+`gdReadCb` on exactly one entry — the call's key with the removed value — was removed.  `DeleteExpired`:
+nothing fired or removed before the traversal; from `deVisit` on, when the pass read a callback
+(`ec = some _`), `fired ++ queue = erased` (fired, then still to fire, is exactly what was removed, in removal
+order); when it read none (`ec = none`: the model queues removed entries only when a callback was read), nothing
+fires and nothing is queued. -/
+theorem fired_prefix (dflt : Int) (cb : Option Nat) (now : Int) (h0 : 0 ≤ now) (s : St K V)
+    (hr : Reach dflt cb now s) (t : Tid) :
+    ((s.l t).pc = .gdCompute → (s.l t).fired = [] ∧ (s.l t).erased = []) ∧
+    (((s.l t).pc = .gdReadCb ∨ (s.l t).pc = .gdFire) → (s.l t).fired = [] ∧
+        ∃ k i, opKey (s.l t) = some k ∧ (s.l t).removed = some i ∧ (s.l t).erased = [(k, i.v)]) ∧
+    (((s.l t).pc = .deReadCb ∨ (s.l t).pc = .deReadClock) → (s.l t).fired = [] ∧ (s.l t).erased = []) ∧
+    (((s.l t).pc = .deVisit ∨ (s.l t).pc = .deCompute ∨ (s.l t).pc = .deFire) →
+        match (s.l t).ec with
+        | some _ => (s.l t).fired ++ (s.l t).queue = (s.l t).erased
+        | none => (s.l t).fired = [] ∧ (s.l t).queue = []) := by
+  have hf := fi_reach dflt cb now s h0 hr t
+  refine ⟨fun h => hf.pre (Or.inl h), hf.gdMid, fun h => hf.pre (Or.inr h), fun h => ?_⟩
+  have hp : dePass (s.l t).pc = true := by rcases h with h | h | h <;> rw [h] <;> rfl
+  have := hf.pass hp
+  cases hec : (s.l t).ec with
+  | none => exact this.2 hec
+  | some cb' => exact this.1 cb' hec
+
+/-- `GetAndDelete`/`Delete`'s firing step, exactly: with a callback read (`ec = some cb`) it appends the one
+removed entry to the ledger and `fired` becomes `erased` (that one entry); with none read nothing fires -/
+theorem gd_fire (t : Tid) (g : G K V) (l : L K V) (c : Choice K V) (g' : G K V) (l' : L K V)
+    (hf : FI l) (hpc : l.pc = .gdFire) (hs : tstep t g l c = some (g', l')) :
+    l'.pc = .ret ∧ l'.erased = l.erased ∧ l'.ec = l.ec ∧
+    match l.ec with
+    | some cb => ∃ k v, l.erased = [(k, v)] ∧ g'.ledger = g.ledger ++ [(cb, k, v)] ∧ l'.fired = [(k, v)]
+    | none => g'.ledger = g.ledger ∧ l'.fired = [] := by
+  obtain ⟨hfi, k, i, hk, hi, he⟩ := hf.gdMid (Or.inr hpc)
+  simp only [tstep, hpc, hk, hi] at hs
+  cases hec : l.ec with
+  | none =>
+    simp only [hec, Option.some.injEq, Prod.mk.injEq] at hs
+    obtain ⟨rfl, rfl⟩ := hs
+    exact ⟨rfl, rfl, rfl, rfl, hfi⟩
+  | some cb =>
+    simp only [hec, Option.some.injEq, Prod.mk.injEq] at hs
+    obtain ⟨rfl, rfl⟩ := hs
+    exact ⟨rfl, rfl, rfl, k, i.v, he, rfl, by simp [hfi]⟩
+
+/-- **Per call, what fired is exactly what was removed, once each, in order.**  In every reachable state, a
+thread at `ret` is returning from some call `op`.  If `op` is `GetAndDelete`, `Delete` or `DeleteExpired`
+(`isRemoval op`): when the call read a callback (`ec = some _`; for `GetAndDelete`/`Delete` it is read only after
+an entry was removed, so for a call that removed nothing `ec` is left over from an earlier call of the thread —
+then both lists are empty) the list of entries it invoked the callback with *is* the list of entries its own
+`Compute`s physically removed (`erased_step`); when it read none, nothing fired.  Every other call — in
+particular the `Get` family with its lazy expiry delete, which removes without a callback — fired nothing and
+removed nothing through these paths. -/
+theorem fired_eq_erased_at_ret (dflt : Int) (cb : Option Nat) (now : Int) (h0 : 0 ≤ now) (s : St K V)
+    (hr : Reach dflt cb now s) (t : Tid) (hpc : (s.l t).pc = .ret) :
+    ∃ op, (s.l t).op = some op ∧
+      (isRemoval op = true →
+        match (s.l t).ec with
+        | some _ => (s.l t).fired = (s.l t).erased
+        | none => (s.l t).fired = []) ∧
+      (isRemoval op = false → (s.l t).fired = [] ∧ (s.l t).erased = []) := by
+  have hf := fi_reach dflt cb now s h0 hr t
+  obtain ⟨op, ho⟩ := hf.hasOp (by rw [hpc]; exact fun h => nomatch h)
+  refine ⟨op, ho, fun h => ?_, fun h => hf.other (by rw [hpc]; exact fun h => nomatch h) op ho h⟩
+  have := hf.ret hpc op ho h
+  cases hec : (s.l t).ec with
+  | none => exact this.2 hec
+  | some cb' => exact this.1 cb' hec
+
+/-- a `GetAndDelete`/`Delete` call at `ret` removed at most one entry: none (and then nothing fired) when the
+key was absent, else exactly its key with the value it remembered in `removed` -/
+theorem gd_erased_at_ret (dflt : Int) (cb : Option Nat) (now : Int) (h0 : 0 ≤ now) (s : St K V)
+    (hr : Reach dflt cb now s) (t : Tid) (hpc : (s.l t).pc = .ret) (op : COp K V) (ho : (s.l t).op = some op)
+    (hc : opCls op = .gd) :
+    match (s.l t).removed with
+    | none => (s.l t).fired = [] ∧ (s.l t).erased = []
+    | some i => ∃ k, opKey (s.l t) = some k ∧ (s.l t).erased = [(k, i.v)] := by
+  have := (fi_reach dflt cb now s h0 hr t).retGd hpc op ho hc
+  cases hrm : (s.l t).removed with
+  | none => exact this.1 hrm
+  | some i => exact this.2 i hrm
+
+/-- **Ledger and `fired` move together** (one step of one thread): either the ledger is unchanged and the thread's
+`fired` is unchanged or reset by the start of a call, or the step is a `gdFire`/`deFire` step that appends
+`(cb, k, v)` to the ledger — `cb` the callback the call read — and `(k, v)` to the thread's `fired` -/
+theorem ledger_fired_step (t : Tid) (g : G K V) (l : L K V) (c : Choice K V) (g' : G K V) (l' : L K V)
+    (hs : tstep t g l c = some (g', l')) :
+    (g'.ledger = g.ledger ∧ (l'.fired = l.fired ∨ (l.pc = .idle ∧ l'.fired = []))) ∨
+    ∃ cb k v, (l.pc = .gdFire ∨ l.pc = .deFire) ∧ l.ec = some cb ∧
+      g'.ledger = g.ledger ++ [(cb, k, v)] ∧ l'.fired = l.fired ++ [(k, v)] := by
+  cases hpc : l.pc <;> simp only [tstep, hpc] at hs
+  case idle =>
+    split at hs
+    · simp only [Option.some.injEq, Prod.mk.injEq] at hs
+      obtain ⟨rfl, rfl⟩ := hs
+      rename_i op _
+      exact Or.inl ⟨rfl, Or.inr ⟨rfl, by cases op <;> rfl⟩⟩
+    · cases hs
+  case gdFire =>
+    split at hs
+    · rename_i k i cbid hk hr hec
+      simp only [Option.some.injEq, Prod.mk.injEq] at hs
+      obtain ⟨rfl, rfl⟩ := hs
+      exact Or.inr ⟨cbid, k, i.v, Or.inl rfl, hec, rfl, rfl⟩
+    · simp only [Option.some.injEq, Prod.mk.injEq] at hs
+      obtain ⟨rfl, rfl⟩ := hs
+      exact Or.inl ⟨rfl, Or.inl rfl⟩
+  case deFire =>
+    split at hs
+    · rename_i k v rest cbid hq hec
+      simp only [Option.some.injEq, Prod.mk.injEq] at hs
+      obtain ⟨rfl, rfl⟩ := hs
+      exact Or.inr ⟨cbid, k, v, Or.inr rfl, hec, rfl, rfl⟩
+    · simp only [Option.some.injEq, Prod.mk.injEq] at hs
+      obtain ⟨rfl, rfl⟩ := hs
+      exact Or.inl ⟨rfl, Or.inl rfl⟩
+  all_goals
+    ((repeat' split at hs) <;>
+    simp only [Option.some.injEq, reduceCtorEq, Prod.mk.injEq] at hs <;>
+    obtain ⟨rfl, rfl⟩ := hs <;> exact Or.inl ⟨rfl, Or.inl rfl⟩)
+
+theorem append_singleton_ne_self {α : Type} (xs : List α) (x : α) : xs ≠ xs ++ [x] := by
+  intro h
+  have := congrArg List.length h
+  simp at this
+
+/-- **A step appends `(cb, k, v)` to the ledger iff it appends `(k, v)` to the stepping thread's `fired`** — and
+then `cb` is the callback the call read -/
+theorem ledger_fired_coupled (t : Tid) (g : G K V) (l : L K V) (c : Choice K V) (g' : G K V) (l' : L K V)
+    (hs : tstep t g l c = some (g', l')) (k : K) (v : V) :
+    ((∃ cb, g'.ledger = g.ledger ++ [(cb, k, v)]) ↔ l'.fired = l.fired ++ [(k, v)]) ∧
+    (∀ cb, g'.ledger = g.ledger ++ [(cb, k, v)] → l.ec = some cb) := by
+  rcases ledger_fired_step t g l c g' l' hs with ⟨hl, hf⟩ | ⟨cb, k', v', _, hec, hl, hf⟩
+  · refine ⟨⟨?_, ?_⟩, ?_⟩
+    · rintro ⟨cb, h⟩
+      rw [hl] at h
+      exact absurd h (append_singleton_ne_self _ _)
+    · intro h
+      rcases hf with hf | ⟨_, hf⟩
+      · rw [hf] at h
+        exact absurd h (append_singleton_ne_self _ _)
+      · rw [hf] at h
+        cases hl : l.fired <;> rw [hl] at h <;> cases h
+    · intro cb h
+      rw [hl] at h
+      exact absurd h (append_singleton_ne_self _ _)
+  · refine ⟨⟨?_, ?_⟩, ?_⟩
+    · rintro ⟨cb2, h⟩
+      rw [hl] at h
+      have := List.append_cancel_left h
+      simp only [List.cons.injEq, Prod.mk.injEq, and_true] at this
+      obtain ⟨_, rfl, rfl⟩ := this
+      exact hf
+    · intro h
+      rw [hf] at h
+      have := List.append_cancel_left h
+      simp only [List.cons.injEq, Prod.mk.injEq, and_true] at this
+      obtain ⟨rfl, rfl⟩ := this
+      exact ⟨cb, hl⟩
+    · intro cb2 h
+      rw [hl] at h
+      have := List.append_cancel_left h
+      simp only [List.cons.injEq, Prod.mk.injEq, and_true] at this
+      obtain ⟨rfl, _, _⟩ := this
+      exact hec
 
 end Proofs.ConcCacheLin
